@@ -295,7 +295,7 @@ func (c *Check) slashInternals(s *Func, gBinding *Func) {
 		dep := field("ServiceBinding", "Deposit", B)
 		avail := field("ServiceBinding", "Available", B)
 		availL := Fact{T: field("ServiceBinding", "Available", L)}
-		M := fmt.Sprintf("(keeper.Keeper.getMinDeposit (%s (.ServiceBinding.ServiceName %s) (.ServiceBinding.Provider %s)))", gPricing.Name, L, L)
+		M := fmt.Sprintf("(%s (%s (.ServiceBinding.ServiceName %s) (.ServiceBinding.Provider %s)))", nameOf(c.minDepositFunc("C04.5"), "keeper.Keeper.getMinDeposit"), gPricing.Name, L, L)
 		var verdict bool
 		var detail string
 		gteT := mk("sdk.Coins.IsAllGTE", dep, parseTerm(M))
